@@ -14,6 +14,7 @@ import numpy as np
 from .. import common as C
 from .. import gen, models
 from .. import sspor_hist as H
+from .. import models
 from .c14 import machine_compare
 
 LEVEL = "proof"
@@ -237,7 +238,59 @@ def optimizer_refits(ctx, count):
                 ctx.nontriv((kind, tuple(m.shape for m in mats)))
 
 
+def default_count_part(ctx, count):
+    """a model built with the DEFAULT sensor count, used for read-only questions (error curves, scores, predictions) and then refitted on
+    data of another width: the default follows the data of the latest fit, exactly as for a fresh model – read-only calls are not setters"""
+    from pysensors.reconstruction import SSPOR
+    rng = ctx.rng
+    for idx in range(count):
+        basis = rng.choice(["identity", "identity", "svd", "rp"])
+        ne = rng.randint(2, 5)
+        nf1, nf2 = rng.randint(ne + 1, 9), rng.randint(ne + 1, 9)
+        if nf1 == nf2:
+            nf2 = nf1 + rng.choice([-1, 1, 2]) if nf1 > ne + 1 else nf1 + 1
+        X1 = np.array([[rng.randint(-6, 6) for _ in range(nf1)] for _ in range(ne)], dtype=float)
+        X2 = np.array([[rng.randint(-6, 6) for _ in range(nf2)] for _ in range(ne)], dtype=float)
+        nm = None if basis == "identity" else rng.randint(1, ne)
+        opt = rng.choice(["qr", "ccqr", "gqr"])
+        probes = rng.sample(["reconstruction_error", "score", "predict", "reconstruction_error(range)"], rng.randint(1, 3))
+        desc = {"basis": basis, "n_modes": nm, "opt": opt, "X1": X1.tolist(), "X2": X2.tolist(), "probes": probes}
+        ctx.evaluations += 1
+        ctx.count("default_count_refit_other_width")
+        try:
+            m = SSPOR(basis=models.make_basis(basis, nm), optimizer=H.make_optimizer(opt))
+            m.fit(X1.copy(), quiet=True, seed=1)
+            for pr in probes:
+                try:
+                    if pr == "reconstruction_error":
+                        m.reconstruction_error(X1.copy())
+                    elif pr == "reconstruction_error(range)":
+                        m.reconstruction_error(X1.copy(), sensor_range=[1, 2])
+                    elif pr == "score":
+                        m.score(X1.copy())
+                    else:
+                        m.predict(X1[:, m.get_selected_sensors()])
+                except Exception:
+                    pass
+            out = "ok"
+            try:
+                m.fit(X2.copy(), quiet=True, seed=1)
+            except Exception as e:
+                out = "E:" + type(e).__name__
+            f = SSPOR(basis=models.make_basis(basis, nm), optimizer=H.make_optimizer(opt)).fit(X2.copy(), quiet=True, seed=1)
+        except Exception as e:
+            ctx.count("default_count_case_raises:" + type(e).__name__)
+            continue
+        if out != "ok" or m.n_sensors != f.n_sensors or np.array(m.get_selected_sensors()).tolist() != np.array(f.get_selected_sensors()).tolist():
+            ctx.violation("concrete", f"default sensor count after {probes} and a refit on {nf2} sensors (first fit: {nf1}): "
+                                      f"{'refit raised ' + out[2:] if out != 'ok' else 'n_sensors=' + str(m.n_sensors)}; a fresh model has n_sensors={f.n_sensors}",
+                          {"signature": "refit-differs-from-fresh:default-count-after-read-only-calls", "default_case": desc, "index": idx})
+        else:
+            ctx.nontriv(("default-count", basis, opt, nf1, nf2, tuple(probes)))
+
+
 def run(ctx: C.Ctx):
+    default_count_part(ctx, ctx.scale(30, 300))
     rng = ctx.rng
     hs = []
     import glob, json
@@ -277,6 +330,9 @@ def run(ctx: C.Ctx):
 
 
 def replay(ctx: C.Ctx, payload):
+    if "default_case" in payload["data"]:
+        print("# deterministic case: re-run ./check C15 (default sensor count after read-only calls, refit on another width)")
+        return
     d = payload["data"]
     if "history" in d:
         h = H.history_from_desc(d["history"])
